@@ -116,8 +116,8 @@ def names_rule(rep, c):
             vals = arr_values(b["body"])
             if vals is not None:
                 lists[b["path"].split("::")[-1]] = vals
-    if len(lists) != 3:
-        r.lost("three *_PROPERTY_NAMES lists (found %s)" % sorted(lists))
+    if len(lists) < 3:
+        r.lost("the three *_PROPERTY_NAMES lists (found %s)" % sorted(lists))
         return None, None, None
     names = [n for k in sorted(lists) for n in lists[k]]
     if len(set(names)) != len(names):
@@ -125,12 +125,22 @@ def names_rule(rep, c):
         r.violation("duplicate-advertised", "", "names advertised twice: %s" % dup)
     # functions
     fn_const = {}
+    aliases = {}
     for b in c.bodies:
         if b["dk"] == "Fn" and b["path"].startswith(U + "::") and b["path"].count("::") == 2 and b.get("output") == "bool":
             cs = [x for x in walk(b["body"]) if kind(x) == "Path" and x.get("res") == "def" and x.get("dk", "").startswith("Const")]
             ok = [x for x in walk(b["body"]) if kind(x) == "MethodCall" and x["m"] == "contains_char"]
             if len(cs) == 1 and ok:
                 fn_const[b["name"]] = cs[0]["path"]
+            elif not cs:
+                # an alias: `pub fn NAME(c) -> bool { OTHER(c) }`
+                tgt = [callee(x) for x in walk(b["body"]) if kind(x) == "Call" and str(callee(x)).startswith(U + "::")
+                       and str(callee(x)).count("::") == 2]
+                if len(tgt) == 1:
+                    aliases[b["name"]] = tgt[0].split("::")[-1]
+    for a, tgt in sorted(aliases.items()):
+        if tgt in fn_const:
+            fn_const[a] = fn_const[tgt]
     # BY_NAME tables
     byname = {}
     for mod in ("binary", "category", "script"):
@@ -168,7 +178,7 @@ def names_rule(rep, c):
         if upper[n][0] != fn_const[n]:
             r.violation("different-table:" + n, "", "by_name(%s) reads %s but pest::unicode::%s reads %s" % (
                 n, upper[n][0], n, fn_const[n]))
-        if not fn_const[n].endswith("::" + n):
+        if not fn_const[n].endswith("::" + n) and n not in aliases:
             r.violation("function-table:" + n, "", "function %s reads table %s" % (n, fn_const[n]))
     # unicode_property_names chains exactly the three lists
     upn = c.fn(U + "::unicode_property_names")
